@@ -462,3 +462,14 @@ package rlwe
 
 //@ afunc Scale.Mul
 //@   trusted opaque at the abstract level: a scale
+
+// ---- rlwe.Parameters (property C08): the encoding is a 4-byte length followed by that many bytes of
+// ---- JSON; on success exactly 4 + length bytes are consumed, whatever the chunking of the transport
+// ---- (buffer.Reader.Read may return fewer bytes than asked for without an error)
+//@ afunc Parameters.UnmarshalJSON
+//@   trusted JSON decoding is opaque at this level
+//@ afunc ext:bufio.NewReader
+//@   trusted bufio.NewReader: a buffered reader (a buffer.Reader)
+//@ afunc Parameters.ReadFrom
+//@   property C08
+//@   ensures implies(isnil(err), n == 4 + lastword(r))
